@@ -107,6 +107,27 @@ pub fn bisim_multi(m: &mut ReManager, atoms: &Atoms, dfa: &Dfa, roots: &[(u32, R
     BisimResult::Equal(seen.len(), calls)
 }
 
+/// the reachable pairs (reference state, crate term) from (q0, e), in BFS order, at most `cap`
+pub fn reachable_pairs(m: &mut ReManager, atoms: &Atoms, dfa: &Dfa, q0: u32, e: RegLan, cap: usize) -> Vec<(u32, RegLan)> {
+    let mut seen: HashSet<(u32, usize)> = HashSet::new();
+    let mut out: Vec<(u32, RegLan)> = Vec::new();
+    let mut queue: VecDeque<(u32, RegLan)> = VecDeque::new();
+    seen.insert((q0, ptr(e)));
+    queue.push_back((q0, e));
+    out.push((q0, e));
+    while let Some((q, t)) = queue.pop_front() {
+        for c in probe_chars(atoms, t) {
+            let q2 = dfa.step(q, atoms.atom_of(c));
+            let t2 = m.char_derivative(t, c);
+            if out.len() < cap && seen.insert((q2, ptr(t2))) {
+                out.push((q2, t2));
+                queue.push_back((q2, t2));
+            }
+        }
+    }
+    out
+}
+
 /// number of distinct iterated derivatives of e, computed with the harness's own BFS over
 /// `char_derivative` (class boundary characters); None if more than cap
 pub fn deriv_closure(m: &mut ReManager, atoms: &Atoms, e: RegLan, cap: usize) -> Option<Vec<RegLan>> {
